@@ -130,6 +130,34 @@ Theorem C15_remap_unscoped_refuted :
 Proof. exact remap_unscoped_refuted. Qed.
 Print Assumptions C15_remap_unscoped_refuted.
 
+(* ---- the commit-object header scan that feeds the comparator its trees ---- *)
+(* spec header_meta: headers end at the first empty line; the first tree header and the first parent
+   header count.  For a commit with a parent the scan (with the early exit the source has, fact
+   GenRemap.meta_early_exit) returns the header's tree and first parent WHATEVER follows — further
+   parents, other headers, the message. *)
+Theorem C15_meta_header :
+  forall T P rest, oid_ok T = true -> oid_ok P = true ->
+    let content := meta_kw_tree ++ T ++ c_nl :: meta_kw_parent ++ P ++ c_nl :: rest in
+    commit_meta_gen true content = (T, Some P) /\ header_meta content = (T, Some P).
+Proof. exact meta_header. Qed.
+Print Assumptions C15_meta_header.
+
+(* FALSE for root commits on the faithful model: no parent, so the exit is never taken and a message
+   line that looks like a tree header replaces the tree (known finding C15-K6) *)
+Theorem C15_meta_root_refuted :
+  header_meta wit_root_commit = (wit_tree_T, None) /\
+  commit_meta_gen true wit_root_commit = (wit_tree_X, Some wit_parent_P).
+Proof. exact meta_root_refuted. Qed.
+Print Assumptions C15_meta_root_refuted.
+
+(* and the early exit is what protects every other commit *)
+Theorem C15_meta_no_exit_refuted :
+  header_meta wit_child_commit = (wit_tree_T, Some wit_parent_P) /\
+  commit_meta_gen true wit_child_commit = (wit_tree_T, Some wit_parent_P) /\
+  commit_meta_gen false wit_child_commit = (wit_tree_X, Some wit_parent_P).
+Proof. exact meta_no_exit_refuted. Qed.
+Print Assumptions C15_meta_no_exit_refuted.
+
 (* non-vacuity: a realistic note (quoted path, a prompt whose text mentions the marker) meets
    wf_note and is rewritten as intended; the note of a file whose NAME contains the marker text
    fails wf_note, meets has_base_field and is rewritten correctly by the repaired shape; a printed
